@@ -316,8 +316,10 @@ func init() {
 					bound = -1 // unbounded: the happens-before state cache makes the full schedule space finite and small
 				case "X10":
 					bound = 2 // (two listeners, two connections, a closer: 6 threads; bound 4 does not finish within the budget)
-				case "X12":
+				case "X12", "X19":
 					bound = 3
+				case "X20":
+					bound = 2 // (two connections, two hooks, a closer: bound 4 does not finish within ten minutes)
 				default:
 					bound = 4
 				}
